@@ -1,6 +1,6 @@
 (* C16 — the specification and the model on concrete instances (sanity of the statements). *)
 From Coq Require Import Reals QArith List Lra.
-From ADV Require Import Base.Num C16.Model C16.Spec.
+From ADV Require Import Base.Num C16.Model C16.ModelHmm C16.Spec.
 Import ListNotations.
 
 (* closed forms in Q: data (weight, x) *)
@@ -26,6 +26,21 @@ Example driver_ex :
   let '(hs, thf, ex) := em_algorithm (fun th : nat => Some (th * 10, S th))%nat Nat.sub (fun _ => false) 0%nat 0%nat 5 false (Some 2%nat) 1%nat in
   map (fun h => (h_iter h, h_mix h, h_lik h)) hs = [(0, 1, 0); (1, 2, 10); (2, 3, 20)]%nat /\ thf = 3%nat /\ ex = false.
 Proof. vm_compute. auto. Qed.
+
+(* regression (former finding F-GEOM-ALLZERO, fixed in /repo 936dc43): nine unweighted zeros have the maximiser p = 1 *)
+Example cf_geometric_nine_zeros : cf_geometric NumQ (repeat (1, 0)%Q 9) = Some 1%Q.
+Proof. vm_compute. reflexivity. Qed.
+(* one Baum-Welch step in Q: two states, left-to-right zero pattern, one sequence (0,1) with state 0 emitting only 0 and
+   state 1 only 1: every expected count is 0 or 1 *)
+Example bw_step_ex :
+  let pi := fun i : nat => match i with O => 1 | _ => 0 end%Q in
+  let tr := fun i j : nat => match i, j with O, O => (1 # 2) | O, _ => (1 # 2) | _, O => 0 | _, _ => 1 end%Q in
+  let e := fun (s j k : nat) => (if Nat.eqb j k then 1 else 0)%Q in
+  let len := fun _ : nat => 2%nat in
+  (map (bw_pi_new NumQ 2 1 len pi tr e) [0; 1], map (bw_tr_new NumQ 2 1 len pi tr e 0) [0; 1],
+   map (bw_tr_new NumQ 2 1 len pi tr e 1) [0; 1], bw_lik NumQ 2 len pi tr e 0)%nat
+  = ([1; 0], [0; 1], [0; 1], 1 # 2)%Q.
+Proof. vm_compute. reflexivity. Qed.
 
 Open Scope R_scope.
 (* the spec sums on a two-point data set *)
